@@ -8,6 +8,7 @@ import (
 	"go/parser"
 	"go/printer"
 	"go/token"
+	"go/types"
 	"os"
 	"path/filepath"
 	"sort"
@@ -64,6 +65,8 @@ type Contract struct {
 	Loops      map[int]*LoopSpec
 	ModNothing bool
 	Modifies   []*Clause
+	PreserveTypes []string // struct types (of the contract's package) none of whose objects is written
+	Preserves  []*Clause // objects left unchanged (the rest of the heap is forgotten); assumed, for trusted contracts
 	AllocBound int
 	AllocExpr  *Clause // bound as an int expression over the parameters (entry state)
 	AllocBuf   bool    // bound = bytes unread in the *bytes.Buffer parameter on entry (sweep option)
@@ -73,11 +76,14 @@ type Contract struct {
 	Exhaustive bool // decided by running the real function on every input of its (small) domain
 	Calls      []*CallSpec // obligations at call sites inside the function
 	NoSafety   bool        // do not generate safety obligations (absence of panics is assumed)
+	NoConn     bool        // assumed not to touch the ghost state of connections
+	SweepFrame bool        // default frame from a sweep with option frame: pointer parameters and fresh objects only
 	NilRecv    bool
 	IsLemma    bool
 	LemmaSig   string
 	LemmaMode  string // "", or "inline": expand real functions by their bodies
 	Fn         *ssa.Function
+	IfaceMethod *types.Func // contract of an interface method: assumed of every implementation
 	Line       int
 	Notes      []string
 	ParamNames []string // names of receiver+params in the elaborated functions
@@ -101,6 +107,7 @@ type sweepSpec struct {
 	Props    []string
 	Line     int
 	AllocBuf bool
+	Frame    bool
 }
 
 const contractFile = "zz_contracts_verif.go"
@@ -189,6 +196,50 @@ func parseContractFile(rel, src string) (*pkgSpec, error) {
 		lines = append(lines, body)
 		lineNos = append(lineNos, i+1)
 	}
+	// `contract A, B, C` followed by clauses stands for one contract per key with the same clauses
+	{
+		var nl []string
+		var nn []int
+		isTop := func(l string) bool {
+			w, _ := splitWord(strings.TrimSpace(l))
+			switch w {
+			case "contract", "lemma", "spec", "sweep", "import", "end":
+				return true
+			}
+			return false
+		}
+		inS := false
+		for i := 0; i < len(lines); i++ {
+			t := strings.TrimSpace(lines[i])
+			if inS {
+				nl, nn = append(nl, lines[i]), append(nn, lineNos[i])
+				if t == "end" {
+					inS = false
+				}
+				continue
+			}
+			w, rest := splitWord(t)
+			if w == "spec" {
+				inS = true
+			}
+			if w == "contract" && strings.Contains(rest, ",") && len(splitTop(rest, ',')) > 1 {
+				j := i + 1
+				for j < len(lines) && !isTop(lines[j]) {
+					j++
+				}
+				for _, k := range splitTop(rest, ',') {
+					nl, nn = append(nl, " contract "+strings.TrimSpace(k)), append(nn, lineNos[i])
+					for m := i + 1; m < j; m++ {
+						nl, nn = append(nl, lines[m]), append(nn, lineNos[m])
+					}
+				}
+				i = j - 1
+				continue
+			}
+			nl, nn = append(nl, lines[i]), append(nn, lineNos[i])
+		}
+		lines, lineNos = nl, nn
+	}
 	var cur *Contract
 	inSpec := false
 	for i, raw := range lines {
@@ -227,8 +278,17 @@ func parseContractFile(rel, src string) (*pkgSpec, error) {
 		case "import":
 			ps.imports = append(ps.imports, rest)
 		case "contract":
-			cur = &Contract{PkgDir: rel, Key: rest, Loops: map[int]*LoopSpec{}, Line: ln}
-			ps.contracts = append(ps.contracts, cur)
+			// several blocks for the same function are merged into one contract
+			cur = nil
+			for _, c := range ps.contracts {
+				if c.Key == rest && !c.IsLemma {
+					cur = c
+				}
+			}
+			if cur == nil {
+				cur = &Contract{PkgDir: rel, Key: rest, Loops: map[int]*LoopSpec{}, Line: ln}
+				ps.contracts = append(ps.contracts, cur)
+			}
 		case "sweep":
 			// sweep <root function key> props C16 ... : every module function
 			// reachable from the root gets a default (safety-only) contract
@@ -239,6 +299,8 @@ func parseContractFile(rel, src string) (*pkgSpec, error) {
 				for _, f := range strings.Fields(r3) {
 					if f == "allocbuf" {
 						sw.AllocBuf = true
+					} else if f == "frame" {
+						sw.Frame = true
 					} else {
 						sw.Props = append(sw.Props, f)
 					}
@@ -258,7 +320,15 @@ func parseContractFile(rel, src string) (*pkgSpec, error) {
 			case "props":
 				cur.Props = append(cur.Props, strings.Fields(rest)...)
 			case "requires":
-				cur.Requires = append(cur.Requires, &Clause{Text: rest, Line: ln})
+				dup := false
+				for _, r := range cur.Requires {
+					if r.Text == rest {
+						dup = true
+					}
+				}
+				if !dup {
+					cur.Requires = append(cur.Requires, &Clause{Text: rest, Line: ln})
+				}
 			case "ensures":
 				cur.Ensures = append(cur.Ensures, &Clause{Text: rest, Line: ln, Props: clauseProps})
 			case "old":
@@ -276,6 +346,18 @@ func parseContractFile(rel, src string) (*pkgSpec, error) {
 					for _, e := range splitTop(rest, ',') {
 						cur.Modifies = append(cur.Modifies, &Clause{Text: strings.TrimSpace(e), Line: ln})
 					}
+				}
+			case "preserves":
+				// objects the call leaves unchanged, whatever else it does (only in trusted contracts)
+				if w, r := splitWord(rest); w == "type" {
+					// preserves type T1, T2: no object of these struct types is written
+					for _, t := range splitTop(r, ',') {
+						cur.PreserveTypes = append(cur.PreserveTypes, strings.TrimSpace(t))
+					}
+					break
+				}
+				for _, e := range splitTop(rest, ',') {
+					cur.Preserves = append(cur.Preserves, &Clause{Text: strings.TrimSpace(e), Line: ln})
 				}
 			case "alloc":
 				r := strings.TrimSpace(strings.TrimPrefix(strings.TrimSpace(rest), "<="))
@@ -323,6 +405,12 @@ func parseContractFile(rel, src string) (*pkgSpec, error) {
 					return nil, fmt.Errorf("line %d: call <name> [args <decls>] requires <expr>", ln)
 				}
 				cur.Calls = append(cur.Calls, cs)
+			case "noconn":
+				// assumed: the function does not write to or close any connection
+				cur.NoConn = true
+				if rest != "" {
+					cur.Notes = append(cur.Notes, rest)
+				}
 			case "nosafety":
 				cur.NoSafety = true
 			case "nonnil":
@@ -478,6 +566,18 @@ func desugar(s string) string {
 					}
 				}
 			}
+			// all(x T, body): body holds of every value x of the basic type T
+			if q := "all"; !handled && c == '(' && strings.HasSuffix(pre, q) && (len(pre) == len(q) || !isIdentChar(pre[len(pre)-len(q)-1])) {
+				args := splitTop(inner, ',')
+				if len(args) >= 2 && len(strings.Fields(args[0])) == 2 {
+					body := strings.Join(args[1:], ",")
+					newPre := pre[:len(pre)-len(q)]
+					out.Reset()
+					out.WriteString(newPre)
+					out.WriteString(fmt.Sprintf("verif_all(func(%s) bool { return %s })", strings.TrimSpace(args[0]), desugar(body)))
+					handled = true
+				}
+			}
 			if !handled {
 				parts := splitTop(inner, ',')
 				for k := range parts {
@@ -574,6 +674,34 @@ func findSigs(dir string) (map[string]*funcSig, string, error) {
 			imps[p] = name
 		}
 		for _, d := range f.Decls {
+			if gd, ok := d.(*ast.GenDecl); ok && gd.Tok == token.TYPE {
+				// methods of interface types: contract key "<Interface>.<Method>"
+				for _, s := range gd.Specs {
+					ts, ok := s.(*ast.TypeSpec)
+					if !ok {
+						continue
+					}
+					it, ok := ts.Type.(*ast.InterfaceType)
+					if !ok || it.Methods == nil {
+						continue
+					}
+					for _, m := range it.Methods.List {
+						ft, ok := m.Type.(*ast.FuncType)
+						if !ok || len(m.Names) != 1 {
+							continue
+						}
+						sig := &funcSig{imports: map[string]string{}}
+						for p, n := range imps {
+							sig.imports[p] = n
+						}
+						sig.recv = "recv " + ts.Name.Name
+						sig.pnames = append(sig.pnames, "recv")
+						sigParamsResults(fset, sig, ft)
+						sigs[ts.Name.Name+"."+m.Names[0].Name] = sig
+					}
+				}
+				continue
+			}
 			fd, ok := d.(*ast.FuncDecl)
 			if !ok {
 				continue
@@ -602,61 +730,66 @@ func findSigs(dir string) (map[string]*funcSig, string, error) {
 				sig.recv = rn + " " + ts
 				sig.pnames = append(sig.pnames, rn)
 			}
-			pi := 0
-			for _, p := range fd.Type.Params.List {
-				ts := nodeStr(fset, p.Type)
-				if strings.HasPrefix(ts, "...") {
-					ts = "[]" + ts[3:]
-				}
-				names := p.Names
-				if len(names) == 0 {
-					names = []*ast.Ident{{Name: "_"}}
-				}
-				for _, n := range names {
-					nm := n.Name
-					if nm == "_" {
-						nm = fmt.Sprintf("p%d", pi)
-					}
-					pi++
-					sig.params = append(sig.params, nm+" "+ts)
-					sig.pnames = append(sig.pnames, nm)
-				}
-			}
-			if fd.Type.Results != nil {
-				ri := 0
-				total := 0
-				for _, r := range fd.Type.Results.List {
-					if len(r.Names) == 0 {
-						total++
-					} else {
-						total += len(r.Names)
-					}
-				}
-				for _, r := range fd.Type.Results.List {
-					ts := nodeStr(fset, r.Type)
-					names := r.Names
-					if len(names) == 0 {
-						names = []*ast.Ident{{Name: "_"}}
-					}
-					for _, n := range names {
-						nm := n.Name
-						if nm == "_" || nm == "" {
-							if total == 1 {
-								nm = "result"
-							} else {
-								nm = fmt.Sprintf("result%d", ri)
-							}
-						}
-						ri++
-						sig.results = append(sig.results, ts)
-						sig.rnames = append(sig.rnames, nm)
-					}
-				}
-			}
+			sigParamsResults(fset, sig, fd.Type)
 			sigs[key] = sig
 		}
 	}
 	return sigs, pkgName, nil
+}
+
+// sigParamsResults fills in parameter and result names and types.
+func sigParamsResults(fset *token.FileSet, sig *funcSig, ft *ast.FuncType) {
+	pi := 0
+	for _, p := range ft.Params.List {
+		ts := nodeStr(fset, p.Type)
+		if strings.HasPrefix(ts, "...") {
+			ts = "[]" + ts[3:]
+		}
+		names := p.Names
+		if len(names) == 0 {
+			names = []*ast.Ident{{Name: "_"}}
+		}
+		for _, n := range names {
+			nm := n.Name
+			if nm == "_" {
+				nm = fmt.Sprintf("p%d", pi)
+			}
+			pi++
+			sig.params = append(sig.params, nm+" "+ts)
+			sig.pnames = append(sig.pnames, nm)
+		}
+	}
+	if ft.Results != nil {
+		ri := 0
+		total := 0
+		for _, r := range ft.Results.List {
+			if len(r.Names) == 0 {
+				total++
+			} else {
+				total += len(r.Names)
+			}
+		}
+		for _, r := range ft.Results.List {
+			ts := nodeStr(fset, r.Type)
+			names := r.Names
+			if len(names) == 0 {
+				names = []*ast.Ident{{Name: "_"}}
+			}
+			for _, n := range names {
+				nm := n.Name
+				if nm == "_" || nm == "" {
+					if total == 1 {
+						nm = "result"
+					} else {
+						nm = fmt.Sprintf("result%d", ri)
+					}
+				}
+				ri++
+				sig.results = append(sig.results, ts)
+				sig.rnames = append(sig.rnames, nm)
+			}
+		}
+	}
 }
 
 func nodeStr(fset *token.FileSet, n ast.Node) string {
@@ -716,10 +849,19 @@ func ite[T any](c bool, a, b T) T {
 // under contract (a ghost predicate; it has no run-time observer).
 func verif_fresh(p any) bool { return true }
 
+// verif_all(f): f holds of every value of its parameter type (a specification-only
+// quantifier; it has no run-time observer).
+func verif_all[T any](f func(T) bool) bool { verif_ghostUsed = true; return true }
+
+// verif_ghostUsed: set when a clause evaluated at run time (counterexample replay)
+// relied on a construct without run-time observer.
+var verif_ghostUsed bool
+
 var _ = verif_forall
 var _ = verif_exists
 var _ = verif_fresh
 `)
+	body.WriteString(ghostPrelude)
 	for _, l := range ps.specCode {
 		body.WriteString(l)
 		body.WriteString("\n")
@@ -797,7 +939,11 @@ var _ = verif_fresh
 			for _, a := range cs.Vars {
 				as = append(as, a[0]+" "+a[1])
 			}
-			emit(cs.Clause, fmt.Sprintf("verif_%s_call%d", c.ID, k), join(plist, strings.Join(as, ", ")), "bool")
+			emit(cs.Clause, fmt.Sprintf("verif_%s_call%d", c.ID, k), join(plist, strings.Join(oldParams, ", "), strings.Join(as, ", ")), "bool")
+		}
+		for k, cl := range c.Preserves {
+			cl.FnName = fmt.Sprintf("verif_%s_keep%d", c.ID, k)
+			fmt.Fprintf(&body, "\nfunc %s(%s) any {\n\treturn %s\n}\n", cl.FnName, plist, desugar(cl.Text))
 		}
 		for k, cl := range c.Modifies {
 			// a modifies expression denotes an object (pointer); typed as any via a generic wrapper
